@@ -45,6 +45,7 @@ fn sig_name(s: i32) -> &'static str
 pub fn check(case: &C18Case) -> CaseOutcome
 {
     let mut o = CaseOutcome::default();
+    let _cfg_form = crate::sandbox::ConfigFormGuard::new((crate::engine::hash_of(case) % 3) as u8);
     // every line the subject prints is an operation boundary too ("at any moment")
     crate::sandbox::COUNT_STDIO.store(true, std::sync::atomic::Ordering::Relaxed);
     let sequential_subject = subject_is_sequential();
